@@ -16,7 +16,8 @@ RULE = ("WSDLs with 0..3 declared header parts (simple and complex, each in its 
         ' ; plus: reply-only header parts, two ports declaring different headers for one operation name, header namespaces without a prefix in scope, security timestamps in zones whose offset depends on the date'
         ' ; a header message named through a prefix only the wsdl:binding element declares'
         ' ; bare marker elements and empty children in caller-made headers'
-        ' ; empty and falsy nonces; header parts declared by type')
+        ' ; empty and falsy nonces; header parts declared by type'
+        ' ; entries added to the soapheaders option and cleared')
 ASSUMPTIONS = ["a header value is a single value per declared part (list-valued header values are outside the "
                "property's alphabet: Binding.mkheader returns a list for them, see DESIGN.md D15)"]
 PARTIAL = [{"theorem": "entry contents", "missing": "what each entry looks like (marshalled per schema, token children, "
